@@ -424,7 +424,8 @@ def family(tier, limit=2048):
             continue
         seen.add(key)
         n = len(bs)
-        if in_S:
+        if in_S or tier == "quick":
+            # (quick tier: also for the variety/special families; the thorough tier truncates those at every offset)
             # every head-boundary prefix of an S(k) member is itself a member, so only offsets inside the last token are new
             last = n - len(tok_bytes(s[-1]))
             truncs = list(range(last + 1, n)) + [n]
@@ -432,7 +433,8 @@ def family(tier, limit=2048):
                 truncs = [0] + truncs    # the empty input, once
         else:
             truncs = list(range(0, n + 1))
-        fam.append(dict(name=seq_name(s), bytes=bs, toks=s, outcome=ref_load(bs, limit), truncs=truncs))
+        fam.append(dict(name=seq_name(s), bytes=bs, toks=s, outcome=ref_load(bs, limit), truncs=truncs, in_S=in_S, nheads=len(s),
+                        status=classify_live(bs, limit)[0], k=k))
     return fam
 
 
